@@ -335,6 +335,10 @@ def parser_cases(repo: str, tucan, tier: str, seed: int):
     return ["Generated.Parser"], prelude, cases
 
 
+class ProbeUnavailable(Exception):
+    """an extracted module the probe needs does not compile for this tree (reported through the Lean obligations where it matters)"""
+
+
 def run_cases(tag: str, imports, prelude: str, cases: list[Case], workdir: str, chunk: int = 24, jobs: int = 16):
     """returns (n_cases, mismatches:list, per-function counts, seconds)"""
     os.makedirs(workdir, exist_ok=True)
@@ -342,7 +346,7 @@ def run_cases(tag: str, imports, prelude: str, cases: list[Case], workdir: str, 
     res = leanbuild.build(["PyModel.Json"] + list(imports))
     bad = [r for r in res.values() if not r.ok]
     if bad:
-        raise RuntimeError("cannot build " + ", ".join(r.mod for r in bad) + "\n" + bad[0].output[:3000])
+        raise ProbeUnavailable("cannot build " + ", ".join(r.mod for r in bad) + "\n" + bad[0].output[:1500])
     py_results = [L.run_py(c.py, c.norm) for c in cases]
     chunks = [cases[i:i + chunk] for i in range(0, len(cases), chunk)]
     paths = []
